@@ -39,6 +39,17 @@ def c08_classify(inp, out):
 
 def c17_classify(inp, out):
     f = inp.split("|")
+    if f[0] == "proof":
+        return ["entry:proof", out]
+    if f[0] == "vc":
+        sel = set(f[3].replace("-", ""))
+        ks = ["entry:vc", "proofs:" + f[2], "frame:" + ("none" if not sel else "all" if sel >= set(f[1]) else
+                                                      "beyond" if not sel <= set(f[1]) else "some"),
+              "nonce:" + f[4], "vcneg:" + f[5].split(":")[0]]
+        for w in out.split(" "):
+            if w.startswith("neg=") or w.startswith("derive=") or w.startswith("verify=") or w.startswith("proofs="):
+                ks.append("vc-" + w)
+        return ks
     n = int(f[1])
     k = len(set(f[3].split(",")))
     ks = ["entry:" + f[0], "n:" + ("1" if n == 1 else "2-7" if n < 8 else "8-16" if n <= 16 else "17+"),
@@ -241,10 +252,10 @@ PROPS = {
     },
     "C17": {
         "lean_files": ["AriesVerif/C17/Model.lean", "AriesVerif/C17/Props.lean", "AriesVerif/C17/Algebra.lean",
-                       "AriesVerif/C17/Drv.lean", "AriesVerif/C17/Guards.lean"],
+                       "AriesVerif/C17/Drv.lean", "AriesVerif/C17/Guards.lean", "AriesVerif/C17/Cred.lean"],
         "lake_targets": ["AriesVerif"],
         "classify": c17_classify,
-        "nontrivial": lambda inp, out: "honest=ok" in out and ("neg=fail" in out or "neg=ok" in out),
+        "nontrivial": lambda inp, out: ("honest=ok" in out or "verify=ok" in out) and ("neg=fail" in out or "neg=ok" in out),
         "thorough_seeds": 2,
         "case_timeout": 180,
         "rule": "sign / derive / verify through the primitive and through the tinkcrypto service (KMS handles): every non-empty "
